@@ -452,13 +452,25 @@ func init() {
 		}
 		return nil
 	})
+	// PacedClock(stepNs): time is driven by the harness. Every clock reading advances a concrete
+	// clock by stepNs; Pause(ns) advances it by ns. Timing decisions of the code under test are
+	// explored through the placement of pauses (a stated bound), not through symbolic instants.
 	reg(zz+"PacedClock", func(fr *frame, args []value) value {
-		fr.i.ps.clockMaxStep = uint64(args[0].(int64))
+		ps := fr.i.ps
+		ps.clockConcrete = uint64(args[0].(int64))
+		if ps.clockNow == 0 {
+			ps.clockNow = 1600000000000000000
+		}
 		return nil
 	})
 	reg(zz+"Pause", func(fr *frame, args []value) value {
 		ps := fr.i.ps
 		ns := uint64(args[0].(int64))
+		if ps.clockConcrete > 0 {
+			ps.clockNow += ns
+			ps.lastClock = term.BVConstU(ps.clockNow, 64)
+			return nil
+		}
 		t := ps.fresh("clock", term.BV(64))
 		fr.assume(term.BVCmp("bvult", t, term.BVConstU(1<<60, 64)))
 		if ps.lastClock != nil {
@@ -653,6 +665,35 @@ func init() {
 		}
 		f := fr.i.prog.ImportedPackage("github.com/meshplus/bitxhub-kit/types").Func("NewAddressByStr")
 		return tuple{call(fr.i, fr, token.NoPos, f, []value{addr}), nilError()}
+	})
+}
+
+// etcd snapshotter model: snapshots saved through a Snapshotter are kept in memory per object
+// (no files); Load returns the latest one or the library's "no snapshot" error.
+var modelSnapshots sync.Map // *value (Snapshotter cell) -> value (raftpb.Snapshot structure)
+
+func init() {
+	const sp = "github.com/coreos/etcd/snap."
+	reg(sp+"New", func(fr *frame, args []value) value {
+		t := fr.i.prog.ImportedPackage("github.com/coreos/etcd/snap").Type("Snapshotter").Type()
+		cell := zero(t)
+		return &cell
+	})
+	reg("(*github.com/coreos/etcd/snap.Snapshotter).SaveSnap", func(fr *frame, args []value) value {
+		snapT := fr.i.prog.ImportedPackage("github.com/coreos/etcd/raft/raftpb").Type("Snapshot").Type()
+		v := args[1]
+		modelSnapshots.Store(args[0].(*value), load(snapT, &v))
+		return nilError()
+	})
+	reg("(*github.com/coreos/etcd/snap.Snapshotter).Load", func(fr *frame, args []value) value {
+		v, ok := modelSnapshots.Load(args[0].(*value))
+		if !ok {
+			return tuple{(*value)(nil), errorValue(fr, "snap: no available snapshot")}
+		}
+		snapT := fr.i.prog.ImportedPackage("github.com/coreos/etcd/raft/raftpb").Type("Snapshot").Type()
+		stored := v.(value)
+		c := load(snapT, &stored)
+		return tuple{&c, nilError()}
 	})
 }
 
